@@ -2,8 +2,11 @@ package main
 
 import (
 	"fmt"
+	"net/http"
 	"strings"
 	"sync/atomic"
+
+	restful "github.com/emicklei/go-restful/v3"
 
 	"verif/harness/h"
 	rm "verif/harness/refmodel"
@@ -99,19 +102,48 @@ func checkC04(run *h.Run) {
 			if sp.Name[0] != 'P' {
 				continue // path sweeps only
 			}
-			for _, switched := range []bool{false, true} {
+			for _, mode := range []string{"", "first", "late"} {
+				switched := mode != ""
 				if switched && sp.Name != "P1" {
 					continue
 				}
-				sp, switched := sp, switched
+				sp, switched, mode := sp, switched, mode
 				name := fmt.Sprintf("%s/%s/switched=%v", router, sp.Name, switched)
+				if mode == "late" {
+					name += "(after serving)"
+				}
 				order = append(order, name)
 				opt := rs.BuildOpt{Router: router, Switched: switched}
+				other := rm.JSR311
+				if router == rm.JSR311 {
+					other = rm.Curly
+				}
+				// late: the container serves the whole request list under the other router first and
+				// is switched to the router under test only then
+				build := func(t rm.Table, warm []*http.Request) *rs.Built {
+					if mode != "late" {
+						return rs.Build(t, opt)
+					}
+					b := rs.Build(t, rs.BuildOpt{Router: other})
+					if b.Panic != "" {
+						return b
+					}
+					for _, hr := range warm {
+						b.Do(hr, h.NewRec(), false)
+					}
+					if router == rm.JSR311 {
+						b.C.Router(restful.RouterJSR311{})
+					} else {
+						b.C.Router(restful.CurlyRouter{})
+					}
+					b.Router = router
+					return b
+				}
 				st := runSweep(run, sp, func(w *worker, t rm.Table, p *rm.Parsed, st *sweepStats) {
 					if dupVarNames(p) {
 						return // a template declaring one variable name twice has no well-defined binding
 					}
-					b := rs.Build(t, opt)
+					b := build(t, w.https)
 					if b.Panic != "" {
 						atomic.AddInt64(&st.buildPanics, 1)
 						return
@@ -132,10 +164,10 @@ func checkC04(run *h.Run) {
 							shapes.Add(fmt.Sprintf("%s %v", p.FullTemplate(0, 0), len(o.Invoked[0].Params)))
 						}
 						if why := judgeC04(p, w.mreqs[qi], router, o); why != "" {
-							rc := routingCase{Sweep: sp.Name, Router: router.String(), Table: t, Req: w.reqs[qi], Observed: o, Other: map[string]any{"switched": switched}}
+							rc := routingCase{Sweep: sp.Name, Router: router.String(), Table: t, Req: w.reqs[qi], Observed: o, Switched: switched, Late: mode == "late", Other: map[string]any{"switched": switched, "mode": mode}}
 							qi := qi
-							run.Violate("params/"+router.String(), f16(p, router, o), fmt.Sprintf("[%s switched=%v] %v ; %v : %s", router, switched, t, w.reqs[qi], why), rc, func() bool {
-								b2 := rs.Build(t, opt)
+							run.Violate("params/"+router.String(), f16(p, router, o), fmt.Sprintf("[%s switched=%v %s] %v ; %v : %s", router, switched, mode, t, w.reqs[qi], why), rc, func() bool {
+								b2 := build(t, w.https)
 								return judgeC04(p, w.mreqs[qi], router, b2.Do(w.reqs[qi].HTTP(), h.NewRec(), false)) != ""
 							})
 						} else if nontriv%9973 == 0 {
@@ -157,6 +189,6 @@ func checkC04(run *h.Run) {
 	run.Cov["evaluations"] = disp
 	run.Cov["distinct_nontrivial"] = nontriv
 	run.Cov["exhaustive"] = true
-	run.Cov["rule"] = "E1 path sweeps (P1 single-route, P2 two-route tables; thorough P3), GET/POST requests, both routers on the templates each supports; P1 additionally on containers whose router was switched from the other router first (configuration history). Non-trivial: a route function ran, so bindings were compared with the reference bindings of the full template (root variables included) and substituted back."
+	run.Cov["rule"] = "E1 path sweeps (P1 single-route, P2 two-route tables; thorough P3), GET/POST requests, both routers on the templates each supports; P1 additionally on containers whose router was switched from the other router first (configuration history), and on containers that served the whole request list under the other router before they were switched. Non-trivial: a route function ran, so bindings were compared with the reference bindings of the full template (root variables included) and substituted back."
 	run.Assume = []string{"reference bindings of DESIGN.md §5", "alphabets bound the claim"}
 }
